@@ -173,6 +173,11 @@ pub async fn probe_isolation(client: &Client, tag: &str) -> Result<(), String> {
         format!("/cdefg/iso{}ab", tag),
         format!("/iso{}ab/cdefh", tag),
         format!("/iso{}ac/cdefg", tag),
+        // the same text split at different separators that are legal inside a part
+        format!("/iso{}_eu/orders", tag),
+        format!("/iso{}/eu_orders", tag),
+        format!("/iso{}-eu/orders", tag),
+        format!("/iso{}/eu-orders", tag),
     ];
     let mut subs = vec![];
     for n in names.iter() {
@@ -388,9 +393,9 @@ pub async fn run_case(addr: std::net::SocketAddr, certs: &Certs, seed: u64, i: u
         Ok(()) => "ok".to_string(),
         Err(e) => format!("fail:{}", clean(e)),
     });
-    let res = match tokio::time::timeout(Duration::from_millis(12000), probe_isolation(&client, &format!("{}x{}", seed % 100_000, i))).await {
+    let res = match tokio::time::timeout(Duration::from_millis(20000), probe_isolation(&client, &format!("{}x{}", seed % 100_000, i))).await {
         Ok(r) => r,
-        Err(_) => Err("no_answer_within_12s".to_string()),
+        Err(_) => Err("no_answer_within_20s".to_string()),
     };
     let _ = writeln!(out, "iso -> {}", match res {
         Ok(()) => "ok".to_string(),
